@@ -12,7 +12,6 @@ package cpuevict
 
 import (
 	"encoding/json"
-	"flag"
 	"io"
 	"math/rand"
 	"reflect"
@@ -164,14 +163,22 @@ func (e *c11Exec) IsPodEvicted(pod *corev1.Pod) bool {
 }
 
 func (e *c11Exec) Evict(pod *corev1.Pod, node *corev1.Node, releaseReason string, message string) bool {
-	reason := message
-	if i := strings.Index(message, ", kill pod: "); i >= 0 {
-		reason = message[:i]
+	// the loop names the task it acts for in the message ("<task reason>, kill pod: <name>")
+	ti := 0
+	for reason, i := range e.tasks {
+		if strings.Contains(message, reason) {
+			ti = i
+		}
+	}
+	if ti == 0 {
+		c11Unattributed++ // cannot tell the task: a harness limitation, reported as machinery trouble, never judged
 	}
 	ok := !e.pods[pod.Name].Fails
-	e.rec.Emit(vu.Ev{"op": "evict", "pod": pod.Name, "task": e.tasks[reason], "ok": ok})
+	e.rec.Emit(vu.Ev{"op": "evict", "pod": pod.Name, "task": ti, "ok": ok})
 	return ok
 }
+
+var c11Unattributed int
 
 // ---- building the real objects
 func c11CPURes(prio int32, milli int64) (corev1.ResourceName, resource.Quantity) {
@@ -466,8 +473,7 @@ func TestVerifC11(t *testing.T) {
 	if !vu.Enabled() {
 		t.Skip("verification harness: VERIF_OUT not set")
 	}
-	klog.InitFlags(nil)
-	flag.Set("logtostderr", "false")
+	klog.LogToStderr(false)
 	klog.SetOutput(io.Discard)
 	orig := metriccache.DefaultAggregateResultFactory
 	metriccache.DefaultAggregateResultFactory = c11Factory{}
@@ -487,13 +493,16 @@ func TestVerifC11(t *testing.T) {
 		}
 		return
 	}
-	n := 2500
+	n := 5000
 	if vu.Thorough() {
 		n = 30000
 	}
 	rng := vu.Rand(1102)
 	for i := 0; i < n; i++ {
 		c11Run(rec, c11Random(rng), stats)
+	}
+	if c11Unattributed > 0 {
+		t.Fatalf("C11 cpuevict: %d Evict calls could not be attributed to a task (message format changed?)", c11Unattributed)
 	}
 	t.Logf("C11 cpuevict: %d cases recorded, %d events, stats %v", rec.Segments(), rec.Events(), stats)
 }
